@@ -12,8 +12,48 @@ pub fn lal(a: &Alt) -> String {
     format!("parser/src/python.lalrpop:{}", a.line)
 }
 
+/// A name for an alternative that survives reordering, merging and splitting of its siblings: the nonterminal plus
+/// the nonterminals the alternative is made of (terminals, captures, bindings and repetition marks left out), with an
+/// ordinal only when two alternatives of the nonterminal have the same make-up.
 pub fn alt_key(d: &NtDef, a: &Alt) -> String {
-    format!("{}#{}", d.name, a.index)
+    fn sig(a: &Alt) -> String {
+        fn names(s: &grammar::Sym, out: &mut Vec<String>) {
+            match &s.kind {
+                SymKind::Name(n) => out.push(n.clone()),
+                SymKind::Macro(n, args) => {
+                    // list macros are named by what they list
+                    if matches!(n.as_str(), "OneOrMore" | "TwoOrMore" | "Comma") {
+                        out.push(format!("{}:", n));
+                        for x in args {
+                            names(x, out);
+                        }
+                    } else {
+                        out.push(n.clone());
+                    }
+                }
+                SymKind::Group(v) => {
+                    for x in v {
+                        names(x, out);
+                    }
+                }
+                _ => {}
+            }
+        }
+        let mut v = vec![];
+        for s in &a.syms {
+            names(s, &mut v);
+        }
+        let cond = a.cond.as_ref().map(|(p, eq, lit)| format!("|{}{}{}", p, if *eq { "==" } else { "!=" }, lit.trim_matches('"'))).unwrap_or_default();
+        format!("{}{}", v.join(","), cond)
+    }
+    let me = sig(a);
+    let same: Vec<usize> = d.alts.iter().filter(|x| sig(x) == me).map(|x| x.index).collect();
+    if same.len() <= 1 {
+        format!("{}[{}]", d.name, me)
+    } else {
+        let k = same.iter().position(|i| *i == a.index).unwrap_or(0) + 1;
+        format!("{}[{}]#{}", d.name, me, k)
+    }
 }
 
 pub fn load_ast_model(cx: &mut Ctx) -> Option<AstModel> {
@@ -515,7 +555,9 @@ pub fn singleton_deviants(cx: &mut Ctx, g: &Grammar) {
                 let s0 = &a.syms[i];
                 let s1 = &a.syms[i + 1];
                 let elem = s0.binding.is_some() && !is_list(s0) && matches!(s0.kind, SymKind::Name(_) | SymKind::Macro(..));
-                let comma = matches!(&s1.kind, SymKind::Term(t) if t == ",") && s1.rep.is_empty() && s1.binding.is_none();
+                // a mandatory ",", or an optional one the action cannot see (unbound `","?`): with the comma present
+                // the alternative has to build the one-element sequence either way
+                let comma = matches!(&s1.kind, SymKind::Term(t) if t == ",") && (s1.rep.is_empty() || s1.rep == "?") && s1.binding.is_none();
                 if !(elem && comma) {
                     continue;
                 }
@@ -528,7 +570,13 @@ pub fn singleton_deviants(cx: &mut Ctx, g: &Grammar) {
             let Some(elem) = hit else { continue };
             let code = a.action.as_ref().map(|x| x.code.clone()).unwrap_or_default();
             let builds = seq_types.iter().any(|t| code.contains(t));
-            let key = format!("{}/{}", rule, alt_key(d, a));
+            // keyed by nonterminal and element (not by the alternative's index: alternatives may be merged or reordered)
+            let elem_name = match &elem.kind {
+                SymKind::Name(n) => n.clone(),
+                SymKind::Macro(n, _) => n.clone(),
+                _ => grammar::sym_text(elem),
+            };
+            let key = format!("{}/{}/{}", rule, d.name, elem_name);
             if builds {
                 cx.ok(rule, &format!("{}: `{}` \",\" builds the singleton sequence", alt_key(d, a), grammar::sym_text(elem)));
             } else {
@@ -744,33 +792,44 @@ pub fn expr_wiring_of(g: &Grammar) -> Vec<(String, String, String, String, Strin
 }
 
 pub fn expr_wiring(cx: &mut Ctx, g: &Grammar, rule: &str) {
-    cx.rule(rule, "precedence wiring of the grammar: every place where an alternative accepts an expression names the same expression level as in the reviewed grammar (refdata/expr_wiring.json: per nonterminal the set of (macro condition, preceding terminal, containing symbol with expression nonterminals masked, expression nonterminal)); a level that is narrower rejects valid programs or makes acceptance depend on redundant parentheses, a wider one accepts invalid programs, a swapped pair changes associativity, a condition added to an alternative removes it from some contexts; the comparison is on sets, so reordering alternatives, renaming bindings or moving position captures does not matter");
-    cx.floor(rule, 120);
-    let refd = match tables::refdata(&cx.verif, "expr_wiring.json") {
+    cx.rule(rule, "the grammar's productions are the reviewed ones up to factoring: the normal form of python.lalrpop (macros instantiated, conditions applied, captures / bindings / actions dropped, `X?` expanded, groups spliced, non-recursive helper nonterminals substituted, recursive helpers named by their shape; tools/rpverif/src/gnf.rs) equals refdata/grammar_normal_form.json anchor by anchor — so every place where the grammar accepts an expression takes the reviewed precedence level (a narrower level rejects valid programs or makes acceptance depend on redundant parentheses, a wider one accepts invalid programs, swapped operands change associativity), no alternative is added, dropped or re-conditioned; splitting or merging alternatives, introducing or inlining helper nonterminals, expanding a macro by hand, reordering alternatives and renaming bindings or nonterminals leave the normal form unchanged");
+    cx.floor(rule, 150);
+    let refd = match tables::refdata(&cx.verif, "grammar_normal_form.json") {
         Ok(v) => v,
         Err(e) => return cx.anchor_missing(rule, &e),
     };
-    cx.refdata.insert("expr_wiring.json".into());
-    let tup = |r: &serde_json::Value| -> (String, String, String, String, String) {
-        let g = |i: usize| r[i].as_str().unwrap_or("").to_string();
-        (g(0), g(1), g(2), g(3), g(4))
+    cx.refdata.insert("grammar_normal_form.json".into());
+    let names = match tables::refdata(&cx.verif, "nonterminals.json") {
+        Ok(v) => v,
+        Err(e) => return cx.anchor_missing(rule, &e),
     };
-    let want: BTreeSet<(String, String, String, String, String)> = refd.as_array().cloned().unwrap_or_default().iter().map(tup).collect();
-    let got: BTreeSet<(String, String, String, String, String)> = expr_wiring_of(g).into_iter().collect();
-    let show = |t: &(String, String, String, String, String)| format!("{}: {}{} {} = {}", t.0, if t.1.is_empty() { String::new() } else { format!("[if {}] ", t.1) }, match t.2.as_str() { "^" => "at the start".to_string(), "·" => "after a nonterminal".to_string(), x => format!("after {}", x) }, t.3, t.4);
-    for t in &got {
-        if want.contains(t) {
-            cx.ok_trivial(rule);
-        } else {
-            // what the reviewed grammar has in the same context
-            let same_ctx: Vec<&String> = want.iter().filter(|w| w.0 == t.0 && w.2 == t.2 && w.3 == t.3).map(|w| &w.4).collect();
-            cx.fail(rule, &format!("{}/{}/{}/{}", rule, t.0, t.2, t.3), "parser/src/python.lalrpop", &format!("{} — the reviewed grammar has {:?} in this context", show(t), same_ctx));
+    let reviewed: BTreeSet<String> = names.as_array().cloned().unwrap_or_default().iter().filter_map(|r| r.get(0)?.as_str().map(|s| s.to_string())).collect();
+    let got = match crate::gnf::normal_form(g, &reviewed) {
+        Ok(n) => n,
+        Err(e) => return cx.fail(rule, &format!("{}/normal-form", rule), "parser/src/python.lalrpop", &format!("the grammar's normal form cannot be computed: {}", e)),
+    };
+    let want: BTreeMap<String, BTreeSet<String>> = refd.as_object().map(|o| o.iter().map(|(k, v)| (k.clone(), v.as_array().map(|a| a.iter().filter_map(|x| x.as_str().map(|s| s.to_string())).collect()).unwrap_or_default())).collect()).unwrap_or_default();
+    for (anchor, prods) in &got {
+        match want.get(anchor) {
+            Some(w) => {
+                let added: Vec<&String> = prods.difference(w).collect();
+                let removed: Vec<&String> = w.difference(prods).collect();
+                if added.is_empty() && removed.is_empty() {
+                    for _ in 0..prods.len().max(1) {
+                        cx.ok_trivial(rule);
+                    }
+                } else {
+                    let show = |v: &Vec<&String>| v.iter().take(3).map(|s| format!("`{}`", s)).collect::<Vec<_>>().join(", ");
+                    cx.fail(rule, &format!("{}/{}", rule, anchor), "parser/src/python.lalrpop", &format!("{}: productions differ from the reviewed grammar — new: [{}]; no longer derivable: [{}]", anchor, show(&added), show(&removed)));
+                }
+            }
+            None => cx.fail(rule, &format!("{}/{}/new", rule, anchor), "parser/src/python.lalrpop", &format!("{} is not an anchor of the reviewed normal form", anchor)),
         }
     }
-    for t in &want {
-        if !got.contains(t) {
-            cx.fail(rule, &format!("{}/{}/{}/{}/missing", rule, t.0, t.2, t.3), "parser/src/python.lalrpop", &format!("{} — this reviewed context no longer exists in the grammar", show(t)));
+    for anchor in want.keys() {
+        if !got.contains_key(anchor) {
+            cx.fail(rule, &format!("{}/{}/missing", rule, anchor), "parser/src/python.lalrpop", &format!("the reviewed anchor {} no longer exists in the grammar (or is no longer reachable in this instantiation)", anchor));
         }
     }
-    cx.ok(rule, "every expression context agrees with the reviewed wiring");
+    cx.ok(rule, "the normal form of the grammar equals the reviewed one");
 }
